@@ -145,6 +145,12 @@ class PushConfigParse(Obligation):
 def obligations(ctx, cfg):
     d = Dispatch(ctx)
     d.budget = 1 if cfg['tier'] == 'quick' else 3
-    return [d, Registry(), PushConfigParse(),
+    from props.C11 import SubDelete
+    from props.C09 import PushPayloadOb
+    sd = SubDelete(ctx)
+    sd.id = 'C14.c-delete-unregisters'
+    pp = PushPayloadOb()
+    pp.id = 'C14.a-payload'
+    return [d, pp, sd, Registry(), PushConfigParse(),
             StepModify(ctx, 2, 2, 1, 'modify conserve', 'C14.b-nack-requeues'),
             StepAck(ctx, 2, 2, 1, 'ack-local', 'C14.b-ack-final')]
